@@ -19,8 +19,8 @@ theorem recv_total (s : St) (mid seq : Nat) (m : Msg) : ∃ s', step s (.recv mi
 history of server messages interleaved with any client activity -/
 theorem loop_state_sane (s : St) (h : Reachable s) :
     (∀ c, inProgress s c ≤ 1) ∧ (∀ e ∈ s.pending, ∃ seq, (e.1, seq, e.2) ∈ s.sent) ∧
-    s.stored.reverse ++ s.owedStore = s.adopted :=
-  ⟨callerOnce_reachable s h, pendingOk_reachable s h, storeOk_reachable s h⟩
+    s.storeLog.reverse ++ s.owedStore = s.adopted :=
+  ⟨callerOnce_reachable s h, pendingOk_reachable s h, (storeOk_reachable s h).1⟩
 
 /-- **requests issued afterwards still complete**: in any reachable state a caller with no call in
 progress can write a request (with any fresh msg_id), and a result naming it is handed to that caller and
